@@ -253,3 +253,61 @@ func VerifC18DropElements() {
 	nd.Assert(o1 == o2, "drop-elements-same-output")
 	nd.Reach("C18.dropelements")
 }
+
+// VerifC18Unsigned: integers of every width compare by numeric value — in particular unsigned
+// values of 2^63 and above against signed ones, in either operand position. x is any uint64 and
+// y any int (solver variables); the flags printed must be those of the mathematical comparison.
+func VerifC18Unsigned() {
+	x, y := nd.Uint64(), nd.Int()
+	var xv any = x
+	switch nd.Choice(3) {
+	case 1:
+		xv = uint(x)
+	case 2:
+		xv = c18Drop{x}
+	}
+	lt := y >= 0 && x < uint64(y)
+	eq := y >= 0 && x == uint64(y)
+	flag := func(b bool) string {
+		if b {
+			return "1"
+		}
+		return "0"
+	}
+	out, err := vRender("{% if x < y %}1{% else %}0{% endif %}{% if x == y %}1{% else %}0{% endif %}{% if x >= y %}1{% else %}0{% endif %}"+
+		"{% if y < x %}1{% else %}0{% endif %}{% if y == x %}1{% else %}0{% endif %}{% if y != x %}1{% else %}0{% endif %}", Bindings{"x": xv, "y": y})
+	nd.Assert(err == nil, "unsigned-compare-no-error")
+	nd.Assert(out == flag(lt)+flag(eq)+flag(!lt)+flag(!lt && !eq)+flag(eq)+flag(!eq), "unsigned-compares-by-numeric-value")
+	nd.Reach("C18.unsigned")
+}
+
+// VerifC18DropUniq: uniq treats a Drop standing for an array or a map as that value, wherever the
+// Drop occurs among the duplicates.
+func VerifC18DropUniq() {
+	k := nd.IntIn(0, 3)
+	mk := func(kind int, drop bool) any {
+		var v any
+		switch kind {
+		case 0:
+			v = []any{1, k}
+		case 1:
+			v = map[string]any{"k": k}
+		default:
+			v = "s"
+		}
+		if drop {
+			return c18Drop{v}
+		}
+		return v
+	}
+	kind := nd.Choice(3)
+	d1, d2, d3 := nd.Bool(), nd.Bool(), nd.Bool()
+	plain := []any{mk(kind, false), mk(kind, false), 7, mk(kind, false)}
+	drops := []any{mk(kind, d1), mk(kind, d2), 7, mk(kind, d3)}
+	t := "{{ a | uniq | size }}"
+	o1, e1 := vRender(t, Bindings{"a": plain})
+	o2, e2 := vRender(t, Bindings{"a": drops})
+	nd.Assert(e1 == nil && e2 == nil, "drop-uniq-no-error")
+	nd.Assert(o1 == "2" && o2 == o1, "drop-uniq-same-result")
+	nd.Reach("C18.dropuniq")
+}
